@@ -105,6 +105,9 @@ func (o pathOp) String() string {
 		if o.Label == "overwrite-child" {
 			return fmt.Sprintf("h:=Child%v;SetChild%v={ow:OW};SetChild%v=h", o.From, o.From, o.A)
 		}
+		if o.Label == "null" {
+			return fmt.Sprintf("h:=Child%v (a null setting);SetChild%v=h", o.From, o.A)
+		}
 		return fmt.Sprintf("h:=Child%v;Remove%v;SetChild%v=h", o.From, o.From, o.A)
 	case opMergeOwn:
 		return fmt.Sprintf("Merge({%s:Child%v})", o.A.Name, o.From)
@@ -217,6 +220,10 @@ func buildPathUniverse(prop string, rich bool) *pathUniverse {
 		for _, p := range [][2]addr{{{"a", -1, true}, {"b", -1, true}}, {{"a", 0, true}, {"b", -1, true}}, {{"b", -1, true}, {"a.a", -1, true}}} {
 			u.ops = append(u.ops, pathOp{Kind: opReattach, From: p[0], A: p[1], Label: "overwrite"})
 		}
+		// the handle Child returns for a null setting, attached somewhere else
+		for _, p := range [][2]addr{{{"b", 0, true}, {"a", -1, true}}, {{"a", 0, true}, {"b", -1, true}}} {
+			u.ops = append(u.ops, pathOp{Kind: opReattach, From: p[0], A: p[1], Label: "null"})
+		}
 		// ... and overwritten by another sub-config before it is attached again
 		for _, p := range [][2]addr{{{"a", -1, true}, {"b", -1, true}}, {{"a", 0, true}, {"a", 1, true}}} {
 			u.ops = append(u.ops, pathOp{Kind: opReattach, From: p[0], A: p[1], Label: "overwrite-child"})
@@ -327,6 +334,27 @@ func (st *pathState) apply(o pathOp) *core.Violation {
 			return bad("mismatch", fmt.Sprintf("model (removed=%v ok=%v) impl (removed=%v err=%v)", mrem, mok, removed, err))
 		}
 	case opReattach:
+		if o.Label == "null" {
+			// Child of a null setting gives an empty config that is not part of the tree; it can
+			// be attached like any other config
+			mn, r := tree.Get(st.mroot, o.From.segs())
+			if r != tree.OK || mn.K != tree.Nil {
+				return nil
+			}
+			if !tree.Set(st.mroot.Clone(), o.A.segs(), tree.NilN()) {
+				return nil
+			}
+			c, err := st.root.Child(o.From.Name, o.From.Idx, o.From.opts()...)
+			if err != nil {
+				return nil // (the implementation holds no setting there: nothing to take)
+			}
+			if err := st.root.SetChild(o.A.Name, o.A.Idx, c, o.A.opts()...); err != nil {
+				return bad("setchild", err.Error())
+			}
+			tree.Set(st.mroot, o.A.segs(), tree.New())
+			st.h, st.mh = nil, nil
+			break
+		}
 		mn, r := tree.Get(st.mroot, o.From.segs())
 		if r != tree.OK || mn.K != tree.Cont {
 			return nil
